@@ -19,6 +19,7 @@ func init() {
 func propC15(a *Analysis, r *Registry) {
 	b := NewB(a, r)
 	X := b.X
+	X.NoInline["fit.PolynomialRegression"] = true // LOESS names the local fit by its call
 	S := X.S
 	const rB = "B-C15 formula"
 	for _, n := range []string{"fit.LOESS", "fit.LOESS$1", "fit.PolynomialRegression", "fit.LinearLeastSquares"} {
